@@ -174,7 +174,7 @@ theorem mu_decr (cfg : Cfg) (s s' : State) (a : Act) (cs ws : List Nat) (hcs : c
       · rename_i hw hch
         simp only [Option.some.injEq] at h; subst h
         refine mu_worker cfg cs ws s _ w hws hin (fun w' hw' => by simp [setWpc, upd, hw']) rfl ?_
-        cases htp : s.tickPending <;> simp [setWpc, upd, ww, hw, hch, htp] <;> omega
+        cases htp : s.tickPending <;> simp [setWpc, upd, ww, hw, hch] <;> omega
       · cases h
     · cases h
   | wTick w =>
